@@ -73,7 +73,7 @@ def _fn_sir():
     import translate
     import netconan.sensitive_item_removal as pm
 
-    text, done, failed = translate.translate_module(pm.__file__, pm, wanted=["_check_sensitive_item_format", "_generate_as_number_replacement"])
+    text, done, failed = translate.translate_module(pm.__file__, pm, wanted=["_check_sensitive_item_format", "_generate_as_number_replacement", "_extract_enclosing_text"])
     return {"coq": text, "translated": done, "refused": failed}
 
 
